@@ -88,6 +88,10 @@ def case_strategy(draw):
                 xs_.append(xs_[j])
             x = sorted(xs_)
             kw['everyn'] = min(kw['everyn'], len(x) // 2)
+        if draw(st.integers(0, 3)) == 0:
+            # the data end in a run of equal values (several measurements at the last abscissa)
+            x = sorted(x) + [max(x)] * draw(st.integers(1, 3))
+            kw['everyn'] = min(kw['everyn'], max(1, len(x) // 2))
     order = draw(st.sampled_from(['sorted', 'shuffled']))
     x = sorted(x) if order == 'sorted' else list(draw(st.permutations(x)))
     kw['bkspread'] = draw(st.sampled_from([1.0, 1.0, 0.5, 2.0, 1.3]))
